@@ -34,13 +34,14 @@ def tag_is_placeholder_check(hed_schema, tag_entry, attribute_name):
         issues += ErrorHandler.format_error(SchemaWarnings.SCHEMA_NON_PLACEHOLDER_HAS_CLASS, tag_entry.name,
                                             attribute_name)
 
-    if tag_entry.parent:
+    # Only tag entries have a parent and children (a class attribute seeded on a unit, a unit class ... lands here too).
+    if getattr(tag_entry, "parent", None):
         other_entries = [child for child in tag_entry.parent.children.values() if child is not tag_entry]
         if len(other_entries) > 0:
             issues += ErrorHandler.format_error(SchemaErrors.SCHEMA_INVALID_SIBLING, tag_entry.name,
                                                 other_entries)
 
-    if tag_entry.children:
+    if getattr(tag_entry, "children", None):
         issues += ErrorHandler.format_error(SchemaErrors.SCHEMA_INVALID_CHILD, tag_entry.name,
                                             tag_entry.children)
 
